@@ -667,7 +667,7 @@ func openFromZipReader(zipReader *zip.Reader, filename string) (*Document, error
 //	if err != nil {
 //		log.Fatal(err)
 //	}
-func (d *Document) Save(filename string) error {
+func (d *Document) Save(filename string) (err error) {
 	Infof("正在保存文档: %s", filename)
 
 	// 确保目录存在
@@ -683,11 +683,23 @@ func (d *Document) Save(filename string) error {
 		Errorf("无法创建文件: %s", filename)
 		return WrapErrorWithContext("create_file", err, filename)
 	}
-	defer file.Close()
+	defer func() {
+		// 关闭文件时的错误（例如缓冲数据无法写入）必须返回给调用者
+		if cerr := file.Close(); cerr != nil && err == nil {
+			Errorf("无法关闭文件: %s", filename)
+			err = WrapErrorWithContext("close_file", cerr, filename)
+		}
+	}()
 
 	// 创建ZIP写入器
 	zipWriter := zip.NewWriter(file)
-	defer zipWriter.Close()
+	defer func() {
+		// ZIP中央目录和缓冲数据在Close时才写入，写入失败不能被忽略
+		if cerr := zipWriter.Close(); cerr != nil && err == nil {
+			Errorf("无法完成ZIP写入: %s", filename)
+			err = WrapErrorWithContext("close_zip", cerr, filename)
+		}
+	}()
 
 	// 序列化主文档
 	if err := d.serializeDocument(); err != nil {
